@@ -250,7 +250,7 @@ pub fn realise_fb(g: &Graph, salt: u64, arrays: bool) -> (String, Vec<(usize, us
     (s, soft)
 }
 
-const STANDARD_NAMES: [&str; 10] = ["ton", "tof", "tp", "sr", "rs", "r_trig", "f_trig", "ctu", "ctd", "ctud"];
+pub const STANDARD_NAMES: [&str; 10] = ["ton", "tof", "tp", "sr", "rs", "r_trig", "f_trig", "ctu", "ctd", "ctud"];
 
 /// every whole word fbK / FBK / FbK (K < n) becomes the K-th standard function block name in the
 /// same letter-case style
